@@ -171,6 +171,12 @@ def shrink(server, spec, cls, budget_s=150):
             c["knobs"][k] = v
             if test(c):
                 cur = c
+    for k in ("env", "cwd"):
+        if k in (cur.get("knobs") or {}) and time.monotonic() < deadline:
+            c = copy.deepcopy(cur)
+            del c["knobs"][k]
+            if test(c):
+                cur = c
     # 5. compact and verify
     small = compact(cur)
     import json
